@@ -16,7 +16,9 @@ sqlfluff dialects (class ↦ dialect in `harness/c09.py: CLASS_ANALYZERS`):
 
 legacy (`dialect="non-validating"`) analyzer:
   L1  a FROM list with ≥ 2 comma‑separated entries one of which has a JOIN (the table after the comma is lost)
-  L2  a parenthesised operand of a WHERE condition contains a subquery
+  L2  a WHERE condition has a subquery anywhere but as an operand of IN / EXISTS / a comparison at the top AND/OR level
+      (inside parentheses, arithmetic, a function or CASE; `where (select …)` alone — there it is the sqlfluff side that
+      loses the subquery)
   L3  a select item contains a subquery at a position other than: the whole item, a direct argument of a (nested)
       function call without OVER, a direct operand of a CASE WHEN comparison / IN / EXISTS or a THEN result — or the
       subquery's body contains a derived table
@@ -106,6 +108,18 @@ def easyArgs : List Expr → Bool
   | a :: r => (easyOperand a || (match a with | .func .. => easyItem a | _ => false)) && easyArgs r
 end
 
+/-- positions of a WHERE condition at which the legacy analyzer (and the sqlfluff extractors) look for subqueries: operands of
+    IN / EXISTS / a comparison, joined by AND / OR at the top of the condition (L2 is the complement) -/
+def whereEasy : Expr → Bool
+  | .bin op a b =>
+    if op.toLower == "and" || op.toLower == "or" then whereEasy a && whereEasy b
+    else if isCmp op then (nSub a == 0 || (match a with | .subq _ => true | _ => false)) &&
+      (nSub b == 0 || (match b with | .subq _ => true | _ => false))
+    else nSub (.bin op a b) == 0
+  | .inSubq x _ _ => nSub x == 0
+  | .exist _ _ => true
+  | e => nSub e == 0
+
 /-- `… CASE … END alias`: the expression's last token is END -/
 def endsWithCase : Expr → Bool
   | .case _ _ => true
@@ -113,63 +127,63 @@ def endsWithCase : Expr → Bool
   | _ => false
 
 mutual
-/-- classes raised inside an expression.  `inWhere`: we are below some WHERE condition -/
-def clsE (inWhere : Bool) : Expr → List String
+/-- classes raised inside an expression -/
+def clsE : Expr → List String
   | .col _ _ | .star _ | .lit _ => []
   | .func _ _ args over =>
     (match over with
-      | some (.mk p o) => (if args.length ≥ 2 then ["L5"] else []) ++ clsEs inWhere p ++ clsEs inWhere o
-      | none => []) ++ clsEs inWhere args
-  | .cast e _ => clsE inWhere e
-  | .case ws els => clsW inWhere ws ++ (match els with | some e => clsE inWhere e | none => [])
-  | .bin _ a b => clsE inWhere a ++ clsE inWhere b
-  | .paren e => (if inWhere && nSub e != 0 then ["L2"] else []) ++ clsE inWhere e
-  | .subq q => clsQ false inWhere q
-  | .inSubq e _ q => ["K1"] ++ clsE inWhere e ++ clsQ false inWhere q
-  | .exist _ q => clsQ false inWhere q
-def clsEs (inWhere : Bool) : List Expr → List String
+      | some (.mk p o) => (if args.length ≥ 2 then ["L5"] else []) ++ clsEs p ++ clsEs o
+      | none => []) ++ clsEs args
+  | .cast e _ => clsE e
+  | .case ws els => clsW ws ++ (match els with | some e => clsE e | none => [])
+  | .bin _ a b => clsE a ++ clsE b
+  | .paren e => clsE e
+  | .subq q => clsQ false q
+  | .inSubq e _ q => ["K1"] ++ clsE e ++ clsQ false q
+  | .exist _ q => clsQ false q
+def clsEs : List Expr → List String
   | [] => []
-  | e :: r => clsE inWhere e ++ clsEs inWhere r
-def clsW (inWhere : Bool) : List When → List String
+  | e :: r => clsE e ++ clsEs r
+def clsW : List When → List String
   | [] => []
-  | .mk c r :: rest => clsE inWhere c ++ clsE inWhere r ++ clsW inWhere rest
-def clsI (inWhere : Bool) : List Item → List String
+  | .mk c r :: rest => clsE c ++ clsE r ++ clsW rest
+def clsI : List Item → List String
   | [] => []
   | .mk e alias asKw :: r =>
     (if easyItem e then [] else ["L3"]) ++
     (if alias.isSome && !asKw && endsWithCase e then ["K4"] else []) ++
-    clsE inWhere e ++ clsI inWhere r
+    clsE e ++ clsI r
 /-- `top`: this query is the whole statement (`Stmt.query q false`) -/
-def clsQ (top inWhere : Bool) : Query → List String
+def clsQ (top : Bool) : Query → List String
   | .select _ its frm wh grp hav =>
     (if frm.length > 1 && frm.any (fun fe => match fe with | .mk _ js => !js.isEmpty) then ["L1"] else []) ++
-    clsI inWhere its ++ clsF inWhere frm ++ (match wh with | some e => clsE true e | none => []) ++ clsEs inWhere grp ++
-    (match hav with | some e => clsE inWhere e | none => [])
-  | .setop (.mk q br) rest => (if br && !top then ["L8"] else []) ++ clsQ false inWhere q ++ clsOB inWhere rest
-  | .withq cs body => clsC inWhere cs ++ clsQ false inWhere body
-def clsOB (inWhere : Bool) : List OpBranch → List String
+    clsI its ++ clsF frm ++ (match wh with | some e => (if whereEasy e then [] else ["L2"]) ++ clsE e | none => []) ++ clsEs grp ++
+    (match hav with | some e => clsE e | none => [])
+  | .setop (.mk q br) rest => (if br && !top then ["L8"] else []) ++ clsQ false q ++ clsOB rest
+  | .withq cs body => clsC cs ++ clsQ false body
+def clsOB : List OpBranch → List String
   | [] => []
-  | .mk _ (.mk q _) :: r => clsQ false inWhere q ++ clsOB inWhere r
-def clsC (inWhere : Bool) : List Cte → List String
+  | .mk _ (.mk q _) :: r => clsQ false q ++ clsOB r
+def clsC : List Cte → List String
   | [] => []
-  | .mk _ q :: r => clsQ false inWhere q ++ clsC inWhere r
-def clsEl (inWhere : Bool) : FromElem → List String
+  | .mk _ q :: r => clsQ false q ++ clsC r
+def clsEl : FromElem → List String
   | .table _ _ _ => []
-  | .derived q _ _ => clsQ false inWhere q
-def clsJ (inWhere : Bool) : List Join → List String
+  | .derived q _ _ => clsQ false q
+def clsJ : List Join → List String
   | [] => []
-  | .mk _ e on _ :: r => clsEl inWhere e ++ (match on with | some c => clsE inWhere c | none => []) ++ clsJ inWhere r
-def clsF (inWhere : Bool) : List FromExpr → List String
+  | .mk _ e on _ :: r => clsEl e ++ (match on with | some c => clsE c | none => []) ++ clsJ r
+def clsF : List FromExpr → List String
   | [] => []
-  | .mk b js :: r => clsEl inWhere b ++ clsJ inWhere js ++ clsF inWhere r
+  | .mk b js :: r => clsEl b ++ clsJ js ++ clsF r
 end
 
 /-- the C09 classes a statement lies in (duplicate‑free; the C01 classes of `Spec.deviations` are reported separately) -/
 def classes : Stmt → List String
-  | .query q br => (clsQ (!br) false q).eraseDups
-  | .insert _ _ _ _ q br => ((if br then ["L6"] else []) ++ clsQ false false q).eraseDups
-  | .ctas _ _ ine q _ => (["K3"] ++ (if ine then ["L4"] else []) ++ clsQ false false q).eraseDups
-  | .createView _ _ _ q => (["K2"] ++ clsQ false false q).eraseDups
+  | .query q br => (clsQ (!br) q).eraseDups
+  | .insert _ _ _ _ q br => ((if br then ["L6"] else []) ++ clsQ false q).eraseDups
+  | .ctas _ _ ine q _ => (["K3"] ++ (if ine then ["L4"] else []) ++ clsQ false q).eraseDups
+  | .createView _ _ _ q => (["K2"] ++ clsQ false q).eraseDups
   | _ => []
 
 end SqlLineage.Spec.Agreement
